@@ -8,14 +8,15 @@
 
 #include <chrono>
 #include <future>
+#include <memory>
 #include <vector>
 
 using wl::Cell;
 
-enum { OP_DETACH = 0, OP_ASYNC_RET, OP_ASYNC_VOID, OP_ASYNC_THROW, OP_READ, OP_LOAD, OP_DETACH_THROW, OP_ASYNC_VOID_THROW };
+enum { OP_DETACH = 0, OP_ASYNC_RET, OP_ASYNC_VOID, OP_ASYNC_THROW, OP_READ, OP_LOAD, OP_DETACH_THROW, OP_ASYNC_VOID_THROW, OP_DETACH_LVALUE };
 static const char* const OPN[] = {"modify_detach", "modify_async_ret", "modify_async_void",
                                   "modify_async_throw", "read", "load", "modify_detach_throw",
-                                  "modify_async_void_throw"};
+                                  "modify_async_void_throw", "modify_detach_lvalue"};
 
 namespace {
 struct Sub {
@@ -82,6 +83,21 @@ struct FnRet {
         c.rmw_add(1, hold);
         on_exec(id);
         return 10L * id;
+    }
+};
+/// a stateful callable that the caller keeps and submits twice as a named
+/// object (lvalue): the library must copy it, not gut it
+struct LvalueFn {
+    std::shared_ptr<int> state;  // by-value state: a move leaves it empty
+    int id_first, id_second;
+    void operator()(Cell& c) const
+    {
+        if (!state)
+            gsim::fail("functor_moved_from", "a submitted function runs in a moved-from state: "
+                       "modify_detach moved out of the caller's named callable");
+        int n = ++*state;
+        c.rmw_add(1, 0);
+        on_exec(n == 1 ? id_first : id_second);
     }
 };
 struct FnVoidThrow {
@@ -166,6 +182,21 @@ struct WL {
                 end_submit(id);
                 gsim::Oracle o;
                 S->futs_void.emplace_back(id, std::move(f));
+                break;
+            }
+            case OP_DETACH_LVALUE: {
+                int id2 = id + 50;
+                LvalueFn lf{std::make_shared<int>(0), id, id2};
+                begin_submit(id, op.code);
+                dg->modify_detach(lf);
+                end_submit(id);
+                if (!lf.state)
+                    gsim::fail("functor_moved_from", "modify_detach(lvalue) left the caller's "
+                               "callable in a moved-from state");
+                for (int y = 0; y < op.a; y++) gsim::yield();
+                begin_submit(id2, op.code);
+                dg->modify_detach(lf);
+                end_submit(id2);
                 break;
             }
             case OP_ASYNC_VOID_THROW: {
@@ -268,11 +299,11 @@ struct WL {
                     bool submit = role == 0 || (role == 2 && gsim::gen_int(2));
                     if (submit) {
                         static const int pool[] = {OP_DETACH, OP_DETACH, OP_DETACH, OP_ASYNC_RET,
-                                                   OP_ASYNC_VOID, OP_ASYNC_THROW,
+                                                   OP_ASYNC_VOID, OP_ASYNC_THROW, OP_DETACH_LVALUE,
                                                    OP_ASYNC_VOID_THROW, OP_DETACH_THROW,
                                                    OP_DETACH_THROW};
                         bool thr = !strcmp(gsim::param("mode", "std"), "throw");
-                        gsim::prog_add(t, {pool[gsim::gen_int(thr ? 9 : 7)], gsim::gen_int(3) == 0 ? 1 : 0, 0,
+                        gsim::prog_add(t, {pool[gsim::gen_int(thr ? 10 : 8)], gsim::gen_int(3) == 0 ? 1 : 0, 0,
                                            (!thr && gsim::gen_int(12) == 0) ? 1 : 0});
                     } else {
                         gsim::prog_add(t, {gsim::gen_int(6) == 0 ? OP_LOAD : OP_READ,
